@@ -1,5 +1,5 @@
 (* C07 -- Every accepted time specification yields a consistent timeline.  Statements only. *)
-From SS Require Import Model.Prelude Model.L3_Units Gen.Gen_Time Model.L3_Timeline Proofs.P_Timeline.
+From SS Require Import Model.Prelude Model.L3_Units Gen.Gen_Time Model.L3_Timeline Proofs.P_Timeline Proofs.P_Calendar.
 From Coq Require Import List QArith.
 
 (* numeric / unitless grids over exact rationals: start exact, uniform spacing dt, strictly increasing,
@@ -22,17 +22,19 @@ Theorem C07_grid_ends_at_last_point_not_after_stop : forall start stop dt, 0 < d
 Proof. exact incl_range_end. Qed.
 Print Assumptions C07_grid_ends_at_last_point_not_after_stop.
 
-(* calendar arithmetic (finite sweep, bounds stated): civil <-> day-count round trip, valid month/day ranges *)
-Theorem C07_civil_roundtrip_1970_2070 : forall z, (sweep_lo <= z < sweep_lo + Z.of_nat sweep_n)%Z ->
-  let '(y, m, d) := civil_from_days z in days_from_civil y m d = z /\ (1 <= m <= 12)%Z /\ (1 <= d <= 31)%Z.
-Proof. exact civil_roundtrip_bounded. Qed.
-Print Assumptions C07_civil_roundtrip_1970_2070.
+(* calendar arithmetic, for EVERY day number (one 400-year era swept by the VM, lifted to all integers by era periodicity):
+   civil <-> day-count round trip, month in 1..12, day within the length of its month (leap rule included) *)
+Theorem C07_civil_roundtrip_every_day : forall z,
+  let '(y, m, d) := civil_from_days z in days_from_civil y m d = z /\ (1 <= m <= 12)%Z /\ (1 <= d <= month_len y m)%Z.
+Proof. exact civil_roundtrip_all. Qed.
+Print Assumptions C07_civil_roundtrip_every_day.
 
-(* the year representation is strictly increasing day by day (1990-2030) *)
-Theorem C07_year_representation_increasing_1990_2030 : forall z, (sweep2_lo <= z < sweep2_lo + Z.of_nat sweep2_n)%Z ->
-  date_to_year (z + ord_epoch) < date_to_year (z + 1 + ord_epoch).
-Proof. exact date_to_year_increasing_bounded. Qed.
-Print Assumptions C07_year_representation_increasing_1990_2030.
+(* the year representation (sc.datetoyear) is strictly increasing from every day to the next *)
+Theorem C07_year_representation_increasing_every_day : forall z, date_to_year (z + ord_epoch) < date_to_year (z + 1 + ord_epoch).
+Proof. exact date_to_year_increasing_all. Qed.
+Print Assumptions C07_year_representation_increasing_every_day.
+Example C07_calendar_nonvacuous : civil_from_days 19782 = (2024, 2, 29)%Z /\ month_len 2024 2 = 29%Z /\ month_len 1900 2 = 28%Z /\ civil_from_days (-719468) = (0, 3, 1)%Z /\ civil_from_days 47541 = (2100, 3, 1)%Z.
+Proof. repeat split; reflexivity. Qed.
 
 (* calendar grids: exact spacing of `step` whole days, start exact, never past stop *)
 Theorem C07_calendar_grid_spacing : forall u start stop dt i d1 d2, (0 < day_step u dt)%Z ->
